@@ -26,7 +26,9 @@ Inductive rk :=
 | RKScalar          (* PartialSig: 32 bytes read into a ModNScalar (reduced mod n) *)
 | RKSigNonce        (* PartialSigWithNonce: 32-byte scalar ++ 66-byte nonce (two curve points) *)
 | RKNonce           (* Musig2Nonce: 66 bytes = two compressed curve points *)
-| RKPoint.          (* tlv.DPubKey: 33 bytes accepted iff on_curve *)
+| RKPoint           (* tlv.DPubKey: 33 bytes accepted iff on_curve *)
+| RKNonceMap.       (* LocalNoncesData: at most 16 entries of 32-byte txid ++ 66-byte nonce
+                       (two curve points), txids distinct; Encode writes them sorted by txid *)
 
 Definition rk_vkind (k : rk) : vkind :=
   match k with
@@ -36,6 +38,7 @@ Definition rk_vkind (k : rk) : vkind :=
   | RKSigNonce => KFixed 98
   | RKNonce => KFixed 66
   | RKPoint => KFixed 33
+  | RKNonceMap => KVar
   end.
 
 (* secp256k1 group order *)
@@ -45,12 +48,72 @@ Definition secp_n : N :=
 (* ModNScalar.SetBytes then .Bytes(): the 256-bit value reduced mod n *)
 Definition modn32 (v : bytes) : bytes := be_enc 32 (be_dec v mod secp_n).
 
+(* ---- LocalNoncesData (lnwire/local_nonces.go): a map txid -> nonce ----
+   decodeLocalNoncesData: record length divisible by 98, at most 16 entries, every
+   nonce two curve points, no txid twice.  encodeLocalNoncesData: entries sorted by
+   txid (bytes.Compare).  entry = 32-byte txid ++ 66-byte nonce. *)
+Definition nonce_entry_len : nat := 98.
+Definition nonce_max_entries : N := 16.
+
+(* bytes.Compare(a, b) <= 0 *)
+Fixpoint lex_leb (a b : bytes) : bool :=
+  match a, b with
+  | [], _ => true
+  | _ :: _, [] => false
+  | x :: a', y :: b' => if x <? y then true else if y <? x then false else lex_leb a' b'
+  end.
+
+Definition key_leb (x y : bytes) : bool := lex_leb (firstn 32 x) (firstn 32 y).
+
+Fixpoint insert_e (x : bytes) (l : list bytes) : list bytes :=
+  match l with
+  | [] => [x]
+  | y :: l' => if key_leb x y then x :: l else y :: insert_e x l'
+  end.
+
+Fixpoint isort_e (l : list bytes) : list bytes :=
+  match l with
+  | [] => []
+  | x :: l' => insert_e x (isort_e l')
+  end.
+
+(* the first k chunks of n bytes *)
+Fixpoint entries (k n : nat) (b : bytes) : list bytes :=
+  match k with
+  | O => []
+  | S k' => firstn n b :: entries k' n (skipn n b)
+  end.
+
+Definition nonce_entries (v : bytes) : list bytes :=
+  entries (Nat.div (length v) nonce_entry_len) nonce_entry_len v.
+
+Definition nonce_norm (v : bytes) : bytes :=
+  if Nat.eqb (Nat.modulo (length v) nonce_entry_len) 0
+  then concat (isort_e (nonce_entries v)) else v.
+
+Definition same_key (x y : bytes) : bool := beq (firstn 32 x) (firstn 32 y).
+
+Fixpoint keys_distinct (l : list bytes) : bool :=
+  match l with
+  | [] => true
+  | x :: l' => negb (existsb (same_key x) l') && keys_distinct l'
+  end.
+
+Definition nonce_entry_ok (oc : bytes -> bool) (e : bytes) : bool :=
+  oc (firstn 33 (skipn 32 e)) && oc (skipn 65 e).
+
+Definition nonce_check (oc : bytes -> bool) (v : bytes) : bool :=
+  Nat.eqb (Nat.modulo (length v) nonce_entry_len) 0 &&
+  (N.of_nat (Nat.div (length v) nonce_entry_len) <=? nonce_max_entries) &&
+  forallb (nonce_entry_ok oc) (nonce_entries v) && keys_distinct (nonce_entries v).
+
 (* what Encode writes for a known record whose wire value was v *)
 Definition rk_norm (k : rk) (v : bytes) : bytes :=
   match k with
   | RKFeat => strip0 v
   | RKScalar => modn32 v
   | RKSigNonce => modn32 (firstn 32 v) ++ skipn 32 v
+  | RKNonceMap => nonce_norm v
   | _ => v
   end.
 
@@ -60,6 +123,7 @@ Definition rk_check (oc : bytes -> bool) (k : rk) (v : bytes) : bool :=
   | RKPoint => oc v
   | RKNonce => oc (firstn 33 v) && oc (skipn 33 v)
   | RKSigNonce => let t := skipn 32 v in oc (firstn 33 t) && oc (skipn 33 t)
+  | RKNonceMap => nonce_check oc v
   | _ => true
   end.
 
@@ -76,7 +140,10 @@ Record tlvmsg := {
   tm_cond : option (nat * N * layout);   (* (i, mask, L): the fields L are present iff
                                             field i of tm_pre (an integer) has a bit of mask set *)
   tm_known : list krec;
-  tm_mode : tmode }.
+  tm_mode : tmode;
+  tm_excl : list (list N * list N) }.    (* (A, B): Decode rejects a message carrying a record
+                                            with type in A and one with type in B
+                                            (ClosingComplete: regular vs taproot signatures) *)
 
 Definition tvalue := (list fval * list fval * list tlv_record)%type.
 
@@ -103,6 +170,14 @@ Definition rec_check (oc : bytes -> bool) (ks : list krec) (r : tlv_record) : bo
 
 Definition rec_known (ks : list krec) (r : tlv_record) : bool :=
   match lookup_rk ks (fst r) with Some _ => true | None => false end.
+
+Definition memN (t : N) (l : list N) : bool := existsb (N.eqb t) l.
+
+Definition has_any (A : list N) (rs : list tlv_record) : bool :=
+  existsb (fun r => memN (fst r) A) rs.
+
+Definition excl_ok (X : list (list N * list N)) (rs : list tlv_record) : bool :=
+  forallb (fun ab => negb (has_any (fst ab) rs && has_any (snd ab) rs)) X.
 
 (* insert the empty record of type t unless a record of type t is present
    (rs sorted by type) *)
@@ -143,13 +218,6 @@ Fixpoint dec_rest (oc : bytes -> bool) (L : layout) (b : bytes)
     end
   end.
 
-Fixpoint beq (a b : bytes) : bool :=
-  match a, b with
-  | [], [] => true
-  | x :: a', y :: b' => (x =? y) && beq a' b'
-  | _, _ => false
-  end.
-
 Section Msg.
   Variable oc : bytes -> bool.      (* btcec.ParsePubKey accepts these 33 bytes *)
 
@@ -178,8 +246,9 @@ Section Msg.
         | Err _ => None
         | Ok rs =>
           if forallb (rec_check oc (tm_known M)) rs
-          then Some (vs, cs, ensure_all (always_types (tm_known M))
-                                        (map (rec_norm (tm_known M)) rs))
+          then let rs' := ensure_all (always_types (tm_known M))
+                                     (map (rec_norm (tm_known M)) rs) in
+               if excl_ok (tm_excl M) rs' then Some (vs, cs, rs') else None
           else None
         end
       end
@@ -236,7 +305,8 @@ Section Msg.
     | (vs, cs, rs) =>
       valid_vs oc (tm_pre M) vs && valid_cond M vs cs &&
       sorted_fromb 0 rs && forallb (rec_okb M) rs &&
-      forallb (fun t => has_type t rs) (always_types (tm_known M))
+      forallb (fun t => has_type t rs) (always_types (tm_known M)) &&
+      excl_ok (tm_excl M) rs
     end.
 
   (* a value Encode represents completely: in Repack mode every record is known *)
@@ -272,6 +342,7 @@ Definition fkind_eqb (a b : fkind) : bool :=
   | FU x, FU y | FBytes x, FBytes y | FArr16 x, FArr16 y => Nat.eqb x y
   | FVar16Max x, FVar16Max y => x =? y
   | FPoint, FPoint | FVar16, FVar16 | FBool, FBool | FFeat, FFeat
+  | FAlias, FAlias | FAddrs, FAddrs | FBigSize, FBigSize
   | FRest, FRest | FTlvRest, FTlvRest => true
   | _, _ => false
   end.
@@ -318,6 +389,98 @@ Definition write_tmessage (T : tmsg_table) (t : N) (v : tvalue)
     end
   end.
 
+(* ---- messages with an optional tail (ChannelReestablish) ----
+   Decode: ReadElements(fixed ...); io.ReadFull of the first tail field: io.EOF (no
+   byte left) => the message ends here (ExtraData empty); otherwise the tail = the
+   remaining fixed fields (data-loss-protect secret and point) ++ TLV extension, i.e.
+   a tlvmsg.  Encode: the tail is written iff its marker field is non-nil. *)
+Record optmsg := { om_pre : layout; om_tail : tlvmsg }.
+
+Definition ovalue := (list fval * option tvalue)%type.
+
+Definition decode_om (oc : bytes -> bool) (W : optmsg) (b : bytes) : option ovalue :=
+  match dec_rest oc (om_pre W) b with
+  | None => None
+  | Some (vs, []) => Some (vs, None)
+  | Some (vs, r) =>
+    match decode_tm oc (om_tail W) r with
+    | Some tv => Some (vs, Some tv)
+    | None => None
+    end
+  end.
+
+Definition encode_om (W : optmsg) (v : ovalue) : option bytes :=
+  match encode (om_pre W) (fst v) with
+  | None => None
+  | Some e1 =>
+    match snd v with
+    | None => Some e1
+    | Some tv =>
+      match encode_tm (om_tail W) tv with
+      | Some e2 => Some (e1 ++ e2)
+      | None => None
+      end
+    end
+  end.
+
+(* the first field of the tail occupies at least one byte: a present tail is never
+   mistaken for an absent one *)
+Definition starts_nonempty (L : layout) : bool :=
+  match L with
+  | FU (S _) :: _ | FBytes (S _) :: _ | FPoint :: _ => true
+  | _ => false
+  end.
+
+Definition om_ok (W : optmsg) : bool :=
+  nonterminal (om_pre W) && tm_ok (om_tail W) && starts_nonempty (tm_pre (om_tail W)).
+
+Definition valid_ov (oc : bytes -> bool) (W : optmsg) (v : ovalue) : bool :=
+  valid_vs oc (om_pre W) (fst v) &&
+  match snd v with None => true | Some tv => valid_tv oc (om_tail W) tv end.
+
+Definition complete_ov (W : optmsg) (v : ovalue) : bool :=
+  match snd v with None => true | Some tv => complete_tv (om_tail W) tv end.
+
+(* what survives a re-encode *)
+Definition out_tv (M : tlvmsg) (tv : tvalue) : tvalue :=
+  match tv with (vs, cs, rs) => (vs, cs, out_recs M rs) end.
+
+Definition out_ov (W : optmsg) (v : ovalue) : ovalue :=
+  (fst v, option_map (out_tv (om_tail W)) (snd v)).
+
+Definition omsg_table := list (N * optmsg).
+
+Fixpoint lookup_om (T : omsg_table) (t : N) : option optmsg :=
+  match T with
+  | [] => None
+  | (t', W) :: r => if t =? t' then Some W else lookup_om r t
+  end.
+
+Definition read_omessage (oc : bytes -> bool) (T : omsg_table) (b : bytes)
+  : option (N * ovalue) :=
+  match read_be 2 b with
+  | None => None
+  | Some (t, r) =>
+    match lookup_om T t with
+    | None => None
+    | Some W =>
+      match decode_om oc W r with
+      | Some v => Some (t, v)
+      | None => None
+      end
+    end
+  end.
+
+Definition write_omessage (T : omsg_table) (t : N) (v : ovalue) : option bytes :=
+  match lookup_om T t with
+  | None => None
+  | Some W =>
+    match encode_om W v with
+    | None => None
+    | Some p => if max_msg_body <? blen p then None else Some (be_enc 2 t ++ p)
+    end
+  end.
+
 (* ---- onion failure packets (lnwire/onion_error.go) ----
    DecodeFailureMessage / EncodeFailureMessage = 2-byte failure code, then the
    payload layout of that code: the shape of read_message / write_message over
@@ -327,8 +490,8 @@ Definition write_tmessage (T : tmsg_table) (t : N) (v : tvalue)
    padded with zeros to exactly 256. *)
 Definition failure_len : N := 256.       (* lnwire.FailureMessageLength *)
 
-Definition decode_failure (oc : bytes -> bool) (F : msg_table) (b : bytes)
-  : option (N * list fval) :=
+(* the framing alone: DecodeFailure's length / padding checks, EncodeFailure's padding *)
+Definition unframe_failure (b : bytes) : option bytes :=
   match read_be 2 b with
   | None => None
   | Some (fl, r) =>
@@ -343,20 +506,184 @@ Definition decode_failure (oc : bytes -> bool) (F : msg_table) (b : bytes)
         | Some (_, r3) =>
           match r3 with
           | _ :: _ => None
-          | [] => if fl + pl <? failure_len then None else read_message oc F d
+          | [] => if fl + pl <? failure_len then None else Some d
           end
         end
       end
     end
   end.
 
+Definition frame_failure (m : bytes) : option bytes :=
+  if failure_len <? blen m then None
+  else Some (be_enc 2 (blen m) ++ m ++ be_enc 2 (failure_len - blen m) ++
+             repeat 0 (N.to_nat (failure_len - blen m))).
+
+Definition decode_failure (oc : bytes -> bool) (F : msg_table) (b : bytes)
+  : option (N * list fval) :=
+  match unframe_failure b with
+  | None => None
+  | Some d => read_message oc F d
+  end.
+
 Definition encode_failure (F : msg_table) (code : N) (vs : list fval) : option bytes :=
   match write_message F code vs with
   | None => None
-  | Some m =>
-    if failure_len <? blen m then None
-    else Some (be_enc 2 (blen m) ++ m ++ be_enc 2 (failure_len - blen m) ++
-               repeat 0 (N.to_nat (failure_len - blen m)))
+  | Some m => frame_failure m
+  end.
+
+(* ---- failure codes that embed a channel_update (lnwire/onion_error.go) ----
+   payload = fixed fields, u16 length, then parseChannelUpdateCompatibilityMode on the
+   next `length` bytes -- FEWER when the input is shorter (io.LimitReader) --: at least two
+   bytes must be there (Peek(2)); if they are 0x0102 (MsgChannelUpdate) they are skipped;
+   the rest is a ChannelUpdate1 body (U, a tlvmsg).  Bytes after the update are ignored.
+   Encode (writeOnionErrorChanUpdate = WriteMessage into a buffer): length = 2 + |body|,
+   the type 0x0102, the body.  uf_opt: length 0 means "no update" and Encode writes
+   length 0 for a nil update (FailTemporaryChannelFailure). *)
+Record updfail := { uf_pre : layout; uf_opt : bool }.
+
+Definition decode_uf (oc : bytes -> bool) (U : tlvmsg) (F : updfail) (b : bytes)
+  : option ovalue :=
+  match dec_rest oc (uf_pre F) b with
+  | None => None
+  | Some (vs, r) =>
+    match read_be 2 r with
+    | None => None
+    | Some (len, r1) =>
+      if uf_opt F && (len =? 0) then Some (vs, None) else
+      match firstn (N.to_nat len) r1 with
+      | a :: b' :: u' =>
+        let body := if (a * 256 + b' =? 258) then u' else a :: b' :: u' in
+        match decode_tm oc U body with
+        | Some tv => Some (vs, Some tv)
+        | None => None
+        end
+      | _ => None
+      end
+    end
+  end.
+
+Definition encode_uf (U : tlvmsg) (F : updfail) (v : ovalue) : option bytes :=
+  match encode (uf_pre F) (fst v) with
+  | None => None
+  | Some e1 =>
+    match snd v with
+    | None => if uf_opt F then Some (e1 ++ [0; 0]) else None
+    | Some tv =>
+      match encode_tm U tv with
+      | None => None
+      | Some e2 =>
+        if max_msg_body <? blen e2 then None
+        else Some (e1 ++ be_enc 2 (blen e2 + 2) ++ [1; 2] ++ e2)
+      end
+    end
+  end.
+
+(* ---- EOF-tolerant payload (FailIncorrectDetails): fields tacked on over time; when no
+   byte is left before a field (io.EOF, nothing read) Decode stops and the remaining fields
+   keep their zero values; a partly present field is an error.  Encode writes every field. *)
+Definition zero_of (k : fkind) : fval :=
+  match k with FU _ | FBool | FBigSize => VN 0 | _ => VB [] end.
+
+Fixpoint decode_eof (oc : bytes -> bool) (L : layout) (b : bytes) : option (list fval) :=
+  match L with
+  | [] => Some []
+  | k :: L' =>
+    match b with
+    | [] => Some (map zero_of (k :: L'))
+    | _ =>
+      match dec_f oc k b with
+      | Some (v, r) =>
+        match decode_eof oc L' r with Some vs => Some (v :: vs) | None => None end
+      | None => None
+      end
+    end
+  end.
+
+(* fixed-width integers, then the extension data *)
+Fixpoint eof_ok (L : layout) : bool :=
+  match L with
+  | [] => true
+  | [FRest] => true
+  | FU (S _) :: L' => eof_ok L'
+  | _ => false
+  end.
+
+(* payload description of a failure code *)
+Inductive fdesc :=
+| FDPlain (L : layout)
+| FDUpd (F : updfail)
+| FDEof (L : layout).
+
+Definition decode_fd (oc : bytes -> bool) (U : tlvmsg) (D : fdesc) (b : bytes) : option ovalue :=
+  match D with
+  | FDPlain L => match decode oc L b with Some vs => Some (vs, None) | None => None end
+  | FDUpd F => decode_uf oc U F b
+  | FDEof L => match decode_eof oc L b with Some vs => Some (vs, None) | None => None end
+  end.
+
+Definition encode_fd (U : tlvmsg) (D : fdesc) (v : ovalue) : option bytes :=
+  match D with
+  | FDPlain L => match snd v with None => encode L (fst v) | Some _ => None end
+  | FDUpd F => encode_uf U F v
+  | FDEof L => match snd v with None => encode L (fst v) | Some _ => None end
+  end.
+
+Definition fd_ok (D : fdesc) : bool :=
+  match D with
+  | FDPlain L => lay_ok L
+  | FDUpd F => nonterminal (uf_pre F)
+  | FDEof L => eof_ok L
+  end.
+
+Definition valid_fd (oc : bytes -> bool) (U : tlvmsg) (D : fdesc) (v : ovalue) : bool :=
+  match D with
+  | FDPlain L | FDEof L =>
+    valid_vs oc L (fst v) && match snd v with None => true | Some _ => false end
+  | FDUpd F =>
+    valid_vs oc (uf_pre F) (fst v) &&
+    match snd v with
+    | None => uf_opt F
+    | Some tv => valid_tv oc U tv && complete_tv U tv
+    end
+  end.
+
+Definition ftable := list (N * fdesc).
+
+Fixpoint lookup_fd (T : ftable) (c : N) : option fdesc :=
+  match T with
+  | [] => None
+  | (c', D) :: r => if c =? c' then Some D else lookup_fd r c
+  end.
+
+(* DecodeFailureMessage / EncodeFailureMessage (no size check of their own) *)
+Definition read_fmessage (oc : bytes -> bool) (U : tlvmsg) (T : ftable) (b : bytes)
+  : option (N * ovalue) :=
+  match read_be 2 b with
+  | None => None
+  | Some (c, r) =>
+    match lookup_fd T c with
+    | None => None
+    | Some D => match decode_fd oc U D r with Some v => Some (c, v) | None => None end
+    end
+  end.
+
+Definition write_fmessage (U : tlvmsg) (T : ftable) (c : N) (v : ovalue) : option bytes :=
+  match lookup_fd T c with
+  | None => None
+  | Some D => match encode_fd U D v with Some p => Some (be_enc 2 c ++ p) | None => None end
+  end.
+
+Definition decode_failure_g (oc : bytes -> bool) (U : tlvmsg) (T : ftable) (b : bytes)
+  : option (N * ovalue) :=
+  match unframe_failure b with
+  | None => None
+  | Some d => read_fmessage oc U T d
+  end.
+
+Definition encode_failure_g (U : tlvmsg) (T : ftable) (c : N) (v : ovalue) : option bytes :=
+  match write_fmessage U T c v with
+  | None => None
+  | Some m => frame_failure m
   end.
 
 (* ---- feature vectors ----
